@@ -33,3 +33,9 @@ def run(ctx):
                 rr.r_split_arm(ctx, tv)
                 rr.r_seed_roots(ctx, tv)
     sr.r_random_zero(ctx)
+    # "every stored vector sits on its own side of every plane above it" is a statement about the forest the writer maintains:
+    # an overwritten vector must leave its old position (removal pass, C01) and the overwrite must be seen by the next build
+    # (updated mark, C06).  These premises are re-evaluated here rather than assumed.
+    from props import C01, C06
+    import premises
+    premises.forest(ctx)
